@@ -215,6 +215,10 @@ def variant_op(b, kind, index, arg=None):
                 if not c:
                     return b
                 cut = max(1, cut)
+                if c[0] and cut >= len(c):
+                    cut = len(c) - 1        # unused bits need at least one content octet in the last fragment
+                    if cut < 1:
+                        return b
                 parts = [b'\x00' + c[1:cut], c[:1] + c[cut:]]
             else:
                 parts = [c[:cut], c[cut:]]
